@@ -131,8 +131,8 @@ def family_cases(rng):
     tiny = [(rng.choice([1.5, 2.0, 3e-12]), rng.choice([2e-9, -1e-12, 4e-300])) for _ in range(n)]
     tpay = [["complex", alpha.fl(a), alpha.fl(b)] for a, b in tiny]
     add("complex", "Complex", "complex128 tiny imaginary", [["complex", a, b] for a, b in tiny], "complex128", [["nan"]], tpay, exact=True)
-    add("complex", "Complex", "strings tiny imaginary/object", [["str", "%r" % complex(a, b)] for a, b in tiny], "object", [["nan"]], tpay, exact=True)
-    for dt, sent in (("object", [["nan"]]), ("str", [["nan"], ["none"]])):
+    add("complex", "Complex", "strings tiny imaginary/object", [["str", "%r" % complex(a, b)] for a, b in tiny], "object", [["nan"], ["none"]], tpay, exact=True)
+    for dt, sent in (("object", [["none"], ["nan"]]), ("str", [["nan"], ["none"]]), ("string", [["NA"]])):
         add("complex", "Complex", "strings/" + dt, [["str", "%r" % complex(a, b)] for a, b in cx], dt, sent, cpay)
     # datetimes (some non-midnight), dates, times, timedeltas
     dts = [rng.choice(DTIMES) for _ in range(n)]
